@@ -722,3 +722,28 @@ End Case.
 Definition check_var (k : N) (same : bool) (hooks : list ev) : N :=
   if same && lifecycle_ok k hooks None then 0 else 4.
 
+
+(* the introspection stream: every object key and every list element of the
+   response below the operation root ([tree], keys of __typename excluded)
+   corresponds to exactly one resolve-hook invocation of every extension, at
+   the same path - introspection fields included.
+   Today's code, dynamic schemas only: the root field `__schema` / `__type`
+   itself is resolved without the hook (dynamic/resolve.rs collect_schema_field
+   / collect_type_field), and the hooks below it report paths without that
+   root segment.  [dyn_adjust] is that behaviour (known class 3). *)
+Definition hook_paths (e : N) (evs : list ev) : list path :=
+  flat_map (fun x => match x with
+                     | Enter e' h => if (e' =? e) && is_resolve h then [node_path h] else []
+                     | Exit _ _ _ => []
+                     end) evs.
+Definition is_intro_root (p : path) : bool :=
+  match p with PF n :: _ => name_eqb n N_schema || name_eqb n N_type | _ => false end.
+Definition dyn_adjust (tree : list path) : list path :=
+  flat_map (fun p => if is_intro_root p then match p with _ :: (_ :: _) as r => [r] | _ => [] end else [p]) tree.
+
+Definition check_tree (k : N) (same dynamic : bool) (hooks : list ev) (tree : list path) : N :=
+  let today := if dynamic then dyn_adjust tree else tree in
+  let shape := same && lifecycle_ok k hooks None in
+  let agrees (exp : list path) := forallb (fun e => paths_same (hook_paths e hooks) exp) (ids k) in
+  verdict (shape && agrees today) (paths_same today tree) (shape && agrees tree)
+          (if dynamic && existsb is_intro_root tree then 3 else 0).
